@@ -212,8 +212,8 @@ Proof.
     destruct bw as [x4|] eqn:Ebw end.
   - intros H; inversion H; subst.
     assert (H4 : fl x4 = fl x3).
-    { destruct (n_router n) as [rt|]; [|discriminate]. destruct (rt_wait rt) as [[[] tmo]|]; try discriminate.
-      dmatch_hyp Ebw; [discriminate|]. inversion Ebw; subst. apply fl_log_event. }
+    { destruct (n_router n) as [rt|]; [|discriminate]. destruct (rt_wait rt) as [[[] tmo]|]; try discriminate; try (dmatch_hyp Ebw; [discriminate|]); inversion Ebw; subst.
+      all: (apply fl_log_event). }
     change (fl (with_session x4 (fun s => upd_run s ri (run_set_status RWaiting))) = fl x). rewrite fl_upd by reflexivity. congruence.
   - destruct (pick_node_exit a x3 ri n (length (r_path r0)) false []) as [x5 [e5 op5]| |] eqn:Epk; try discriminate.
     intros H; inversion H; subst. rewrite (pick_node_exit_fl _ _ _ _ _ _ _ _ _ Epk). congruence.
